@@ -176,13 +176,14 @@ def _run(prop_id, prop, tier, seed, cfg, repo, root, scratch, t0, a):
             known_hit.setdefault(k, {"entry": e, "n": 0, "example": h["example"]})["n"] += h["n"]
 
     rc = 0
-    os.makedirs(os.path.join(root, "replays"), exist_ok=True)
+    replay_dir = os.environ.get("CG_REPLAY_DIR", os.path.join(root, "replays"))
+    os.makedirs(replay_dir, exist_ok=True)
     lines = []
     for kid, h in sorted(known_hit.items()):
         lines.append(f"KNOWN-FINDING: property={prop_id} {kid}: {h['entry']['what']} (hit {h['n']}x)")
     replay_verified = {}
     for key, v in sorted(unknown.items(), key=lambda kv: kv[0]):
-        path = os.path.join(root, "replays", f"{prop_id}-{v['rseed']:016x}.json")
+        path = os.path.join(replay_dir, f"{prop_id}-{v['rseed']:016x}.json")
         rp = {"property": prop_id, "check_id": v["check_id"], "signature": v["sig"], "detail": v["detail"],
               "world": {"pythonhashseed": v["hashseed"], "wseed": v["wseed"], "run_index": v["j"]},
               "verif_seed": seed, "case": v["case"], "digest": v["digest"], "events_tail": v.get("events"),
@@ -242,8 +243,9 @@ def _run(prop_id, prop, tier, seed, cfg, repo, root, scratch, t0, a):
         "wall_s": round(wall, 2),
         "violations": len(unknown),
     }
-    os.makedirs(os.path.join(root, "evidence"), exist_ok=True)
-    with open(os.path.join(root, "evidence", f"{prop_id}.json"), "w") as f:
+    ev_dir = os.environ.get("CG_EVIDENCE_DIR", os.path.join(root, "evidence"))
+    os.makedirs(ev_dir, exist_ok=True)
+    with open(os.path.join(ev_dir, f"{prop_id}.json"), "w") as f:
         json.dump(ev, f, indent=1, default=str)
     for ln in lines:
         print(ln)
